@@ -452,8 +452,11 @@ def length_of(it, v):
     if isinstance(v, (list, tuple, dict, set, str, range)):
         return len(v)
     if isinstance(v, SymDict):
-        n = v.name + "$size"
-        raise Unsupported("len() of symbolic dict")
+        if v.size is not None:
+            return SV(v.size, TInt)
+        raise Unsupported("len() of symbolic dict without ghost size")
+    if isinstance(v, SymObj) and "$len" in v.fields:
+        return v.fields["$len"]
     raise Unsupported(f"len of {type(v).__name__}")
 
 
@@ -513,6 +516,8 @@ def to_tuple(it, v):
         return SymSeq(v.length, v.arr, v.ety, "tuple")
     if isinstance(v, KeyIter):
         return v
+    if isinstance(v, SymObj) and "$tuple" in v.fields:
+        return v.fields["$tuple"]
     if isinstance(v, SV) and isinstance(v.ty, (TOpaque, TSeqT)):
         return v  # opaque sequence-like ghost value (e.g. parities of a sector)
     raise Unsupported(f"tuple() of {type(v).__name__}")
@@ -710,6 +715,8 @@ def setitem(it, obj, key, v):
         return
     if isinstance(obj, SymDict):
         k = it.unwrap(key, obj.kty)
+        if obj.size is not None:
+            obj.size = z3.simplify(obj.size + z3.If(z3.Select(obj.has, k), 0, 1))
         obj.has = z3.Store(obj.has, k, z3.BoolVal(True))
         obj.val = z3.Store(obj.val, k, it.unwrap(v, obj.vty))
         return
@@ -737,6 +744,8 @@ def delitem(it, obj, key):
         if not it.ctx.branch(z3.Select(obj.has, k), "delkey"):
             raise PyRaise("KeyError", "del key")
         obj.has = z3.Store(obj.has, k, z3.BoolVal(False))
+        if obj.size is not None:
+            obj.size = z3.simplify(obj.size - 1)
         return
     if isinstance(obj, dict):
         if is_symval(key):
@@ -903,6 +912,8 @@ def get_method(it, obj, name):
                 kk = it.unwrap(a[0], d.kty)
                 present = z3.simplify(z3.Select(d.has, kk))
                 old = it.lift(sel(d.val, kk), d.vty)
+                if d.size is not None:
+                    d.size = z3.simplify(d.size - z3.If(present, 1, 0))
                 if len(a) > 1:
                     dflt = a[1]
                     if dflt is None:
@@ -926,6 +937,8 @@ def get_method(it, obj, name):
                 it.ctx.assume(z3.Select(d.has, w))
                 v = it.lift(sel(d.val, w), d.vty)
                 d.has = z3.Store(d.has, w, z3.BoolVal(False))
+                if d.size is not None:
+                    d.size = z3.simplify(d.size - 1)
                 return (it.lift(w, d.kty), v)
             return B(f)
         if name == "setdefault":
